@@ -5,8 +5,9 @@
 //! therefore with each other.
 
 use core::ops::Add;
+use generic_array::typenum::Diff;
 use generic_array::sequence::GenericSequence;
-use generic_array::typenum::{Prod, Sum, U1, U1000, U1024, U2047, U2048, U3, U4096};
+use generic_array::typenum::{Prod, Sum, U1, U1000, U1024, U2047, U2048, U3, U32768, U4096, U65536};
 use generic_array::{ArrayLength, GenericArray};
 use std::fmt::Write;
 use vkit::typenum::U;
@@ -73,7 +74,8 @@ fn precisions(n: usize, rng: &mut Rng, thorough: bool) -> Vec<usize> {
             v.push(rng.below(2 * n + 1));
             v.push(rng.below(2 * n + 1) | 1);
         }
-        v.retain(|p| *p <= 2 * n + 2 || *p == 65535);
+        // a Formatter carries precision and width as u16; larger run-time values panic in core::fmt itself
+        v.retain(|p| (*p <= 2 * n + 2 && *p <= 65535) || *p == 65535);
         v.sort();
         v.dedup();
         v
@@ -122,7 +124,7 @@ where
         st.check_case("C14", "hex.flags", feature, || format!("C14 hex.flags [{feature}] N={n} pattern={pat}"), n > 0, || {
             std::hint::black_box(poison_stack(0xF5));
             let cut = |p: usize| p.min(2 * n);
-            let w = 2 * n + 9;
+            let w = (2 * n + 9).min(65535);
             let got: Vec<(String, String, &str)> = vec![
                 (format!("{:w$x}", arr, w = w), full_l.clone(), "{:w$x}"),
                 (format!("{:>w$X}", arr, w = w), full_u.clone(), "{:>w$X}"),
@@ -189,6 +191,74 @@ where
             }
             Ok(())
         });
+        // sinks that refuse: a sink of limited capacity (refuses everything from some character on)
+        // and a sink with one transient failure (refuses exactly the k-th fragment, then accepts
+        // again).  Whatever the sink ACCEPTED must be a prefix of the digits -- "in index order and
+        // nothing else" leaves no room for a hole -- nothing may be offered after the refusal that
+        // is then accepted out of order, and a formatter that was refused must say so (Err).
+        st.check_case("C14", "hex.sink", feature, || format!("C14 hex.sink [{feature}] N={n} pattern={pat}"), n > 0, || {
+            struct Refusing {
+                accepted: String,
+                calls: usize,
+                refusals: usize,
+                fail_call: Option<usize>,
+                capacity: Option<usize>,
+            }
+            impl std::fmt::Write for Refusing {
+                fn write_str(&mut self, frag: &str) -> std::fmt::Result {
+                    let k = self.calls;
+                    self.calls += 1;
+                    if self.fail_call == Some(k) || self.capacity.map_or(false, |c| self.accepted.len() + frag.len() > c) {
+                        self.refusals += 1;
+                        return Err(std::fmt::Error);
+                    }
+                    self.accepted.push_str(frag);
+                    Ok(())
+                }
+            }
+            let mut plans: Vec<(Option<usize>, Option<usize>)> = vec![];
+            for k in [0usize, 1, 2, 3, 5, 8] {
+                plans.push((Some(k), None));
+            }
+            for c in [0usize, 1, 2, 3, 2 * n / 2, (2 * n).saturating_sub(1), 2047, 2048, 2049, 4095, 4096, 4097, 6000] {
+                if c < 2 * n {
+                    plans.push((None, Some(c)));
+                }
+            }
+            if cfg!(miri) {
+                // the interpreter pays per byte formatted: one refusal at the start, one in the second
+                // block of a long array, one capacity inside each
+                plans = vec![(Some(0), None), (Some(1), None), (None, Some(1)), (None, Some(2049))];
+                plans.retain(|(_, c)| c.map_or(true, |c| c < 2 * n));
+            }
+            for upper in [false, true] {
+                let want = if upper { &full_u } else { &full_l };
+                for precision in [None, Some((2 * n / 3 + 1).min(65535)), Some((2 * n.saturating_sub(1)).min(65535))] {
+                    for (fail_call, capacity) in plans.iter().copied() {
+                        let mut sink = Refusing { accepted: String::new(), calls: 0, refusals: 0, fail_call, capacity };
+                        std::hint::black_box(poison_stack(0xF5));
+                        let r = match (upper, precision) {
+                            (false, None) => write!(sink, "{:x}", arr),
+                            (true, None) => write!(sink, "{:X}", arr),
+                            (false, Some(p)) => write!(sink, "{:.p$x}", arr, p = p),
+                            (true, Some(p)) => write!(sink, "{:.p$X}", arr, p = p),
+                        };
+                        let expect = &want[..precision.map_or(2 * n, |p| p.min(2 * n))];
+                        let what = format!("sink(fail_call={fail_call:?}, capacity={capacity:?}) precision={precision:?} upper={upper}");
+                        if !expect.starts_with(sink.accepted.as_str()) {
+                            return Err(format!("SinkHole: {what}: the sink accepted {} characters that are not a prefix of the digits: {}", sink.accepted.len(), first_diff(&sink.accepted, expect)));
+                        }
+                        if sink.refusals > 0 && r.is_ok() {
+                            return Err(format!("SinkErrorSwallowed: {what}: the sink refused a fragment ({} of {} characters delivered) but formatting returned Ok", sink.accepted.len(), expect.len()));
+                        }
+                        if sink.refusals == 0 && (r.is_err() || sink.accepted != *expect) {
+                            return Err(format!("LowerMismatch: {what}: nothing was refused, yet result {:?} / {} of {} characters", r, sink.accepted.len(), expect.len()));
+                        }
+                    }
+                }
+            }
+            Ok(())
+        });
         let ps = precisions(n, &mut rng, args.thorough());
         for p in ps {
             st.check_case("C14", "hex.precision", feature, || format!("C14 hex.precision [{feature}] N={n} pattern={pat} p={p}"), n > 0, || {
@@ -219,6 +289,14 @@ fn main() {
     let only_big = args.kv.contains_key("only_big");
     if !only_big {
         lens!(&mut st, args, [0, 1, 2, 3, 4, 5, 6, 7, 8, 9, 10, 11, 12, 13, 14, 15, 16, 17, 31, 32, 33, 255, 256, 1023, 1024]);
+    }
+    if args.kv.contains_key("huge") {
+        // lengths whose digit count passes what a Formatter can carry as a precision (u16):
+        // 2N = 65534 / 65536 / 65538 / 131072
+        t_hex::<Diff<U32768, U1>>(&mut st, &args); // 32767
+        t_hex::<U32768>(&mut st, &args);
+        t_hex::<Sum<U32768, U1>>(&mut st, &args); // 32769
+        t_hex::<U65536>(&mut st, &args);
     }
     if args.kv.get("big_n").map(|s| s.as_str()) == Some("1025") {
         t_hex::<Sum<U1024, U1>>(&mut st, &args);
